@@ -24,6 +24,8 @@ func runC15(c *Ctx) {
 	runC15Diamond(c)
 	runC15Label(c)
 	runC15Extract(c)
+	runC15Quoted(c)
+	runC15Join(c)
 }
 
 func runC15Diamond(c *Ctx) {
